@@ -18,6 +18,7 @@ RULE = (
     "as (qualified name, arg hash); resources == handles obtained, in order; function_dependencies == versions of all functions invoked transitively beneath it plus itself; "
     "and the record is identical for every subset. Non-trivial = tree with a repeated, batched or failing sub-call and a subset that is neither empty nor full; "
     "distinct by (tree, subset)."
+    " Editions part (round 5): generated programs (vlib/progs.py) with explicitly versioned functions are run on a persistent store, edited beneath those functions (their results survive, by definition) and run again, each edition in a new process; afterwards every memento in the store is read back through new backend objects and its dependency set must equal itself plus the union of the dependency sets stored for the calls it recorded - in particular when two versions of one function meet in one set. Directed enumerated family (pinned caller / edited leaf / root reaching the leaf directly, through a helper, or not at all) plus generated programs and edits."
 )
 ASSUMPTIONS = [
     "functions carry explicit versions, so dynamic dispatch through a table is allowed by the library (no dependency validation)",
@@ -26,7 +27,7 @@ ASSUMPTIONS = [
 ]
 MANIFEST = {
     "level": "exploration",
-    "technique": "property-based testing with Hypothesis: generated call trees (argument-dependent, recursive, with a second thread making an unrelated call at a pause point) x exhaustive subsets of pre-memoized sub-calls, oracle = side-channel execution trace (metamorphic invariance across subsets)",
+    "technique": "property-based testing with Hypothesis: generated call trees (argument-dependent, recursive, with a second thread making an unrelated call at a pause point) x exhaustive subsets of pre-memoized sub-calls, oracle = side-channel execution trace (metamorphic invariance across subsets); plus generated programs edited across process restarts with a closure invariant over every stored memento (dependency set = itself + union over its recorded calls)",
     "text": "For each generated tree the provenance record of every call is compared with the recorded trace of what the bodies really did, under every subset of pre-memoized sub-calls (exhaustive for n <= 6).",
     "note": "Trusts the harness trace (vlib/trees.py) as ground truth for what bodies did.",
 }
